@@ -818,7 +818,8 @@ def partition_by_sum(array, parts):
     indices = np.searchsorted(cumulative_sum, ideal_cumsum, side="right")
     # Check for repeated split points, which indicates that there is no way to
     # split the array.
-    if np.unique(indices).size != indices.size:
+    # A leading split point of 0 would create an empty first part.
+    if np.unique(indices).size != indices.size or (indices.size > 0 and indices[0] == 0):
         raise ValueError(
             "Could not find partition points to split the array into {} parts "
             "of equal sum.".format(parts)
